@@ -123,6 +123,19 @@ func c06ops() []c06op {
 		s.keep("StreamEncoder output", w.Bytes())
 		return w.String()
 	})
+	// validations that FAIL inside nested containers hand their pooled state machine back
+	// with a non-empty stack: nothing later may read it
+	add("Valid(truncated-nested)->false", func(s *c06state) string {
+		return fmt.Sprint(sonic.Valid([]byte(`{"a":[[`)), sonic.Valid([]byte(`[[{"b":[`)))
+	})
+	add("Get(truncated-nested)->error", func(s *c06state) string {
+		_, err := sonic.Get([]byte(`[1,{"a":[[`), 5)
+		return fmt.Sprint(err != nil)
+	})
+	add("ConfigStd.Unmarshal(truncated-nested)->error", func(s *c06state) string {
+		var v interface{}
+		return fmt.Sprint(std.Unmarshal([]byte(`{"a":[{"b":[`), &v) != nil)
+	})
 	for _, capn := range []int{0, 7, 300} {
 		capn := capn
 		add(fmt.Sprintf("EncodeInto(cap=%d,large,EscapeHTML)", capn), func(s *c06state) string {
